@@ -39,6 +39,12 @@ impl PartialOrd for KV { fn partial_cmp(&self, o: &Self) -> Option<Ordering> { S
 impl Ord for KV { fn cmp(&self, o: &Self) -> Ordering { self.key.cmp(&o.key) } }
 fn cmp_kv(a: &KV, b: &KV) -> Ordering { a.key.cmp(&b.key) }
 fn key_of(a: &KV) -> u8 { a.key }
+thread_local! { static OPER: std::cell::Cell<(u8, u8)> = const { std::cell::Cell::new((0, 0)) }; }
+/// operand expressions with an observable evaluation: each bumps its own counter, and a second evaluation yields a
+/// different value (the order in which the two operands are evaluated is not observable through this)
+fn ea(a: KV) -> KV { OPER.with(|c| { let (x, y) = c.get(); c.set((x + 1, y)); KV { key: a.key, id: a.id + 100 * x } }) }
+fn eb(b: KV) -> KV { OPER.with(|c| { let (x, y) = c.get(); c.set((x, y + 1)); KV { key: b.key, id: b.id + 100 * y } }) }
+fn obs2(f: impl FnOnce() -> KV) -> String { OPER.with(|c| c.set((0, 0))); cu(|| { let v = f(); format!("{:?} operand evaluations={:?}", v, OPER.with(|c| c.get())) }) }
 fn kvs() -> Vec<KV> { let mut v = Vec::new(); let mut id = 0; for key in 0..3u8 { for _ in 0..2 { v.push(KV { key, id }); id += 1; } } v }
 '''
 
@@ -119,6 +125,11 @@ def opt_result_programs():
     ]
     for name, k, s in mm:
         P.append((name, [f"for a in kvs() {{ for b in kvs() {{ if a.id == b.id {{ continue; }} out.push((format!(\"{name} on {{:?}}, {{:?}}\", a, b), obs(|| {k}), obs(|| {s}))); }} }}"]))
+    # operand expressions are evaluated exactly once each, and the returned value is one of the two values they produced
+    for name, k, st in mm:
+        k2 = k.replace("(a, b", "(ea(a), eb(b)")
+        s2 = st.replace("(a, b", "(ea(a), eb(b)")
+        P.append((name + " with operand expressions", [f"for a in kvs() {{ for b in kvs() {{ if a.id == b.id {{ continue; }} out.push((format!(\"{name} on expressions yielding {{:?}}, {{:?}}\", a, b), obs2(|| {k2}), obs2(|| {s2}))); }} }}"]))
     # (operand *evaluation order* of min!/max! is deliberately not compared: the statement speaks of pairs of values;
     #  the pinned max_by_key! evaluates its operands right to left)
     # min!/max! on primitives (u8 all pairs of a small set)
